@@ -332,12 +332,85 @@ def c20_4(ctx):
     ctx.check(len(gs) == 1 and unparse(gs[0].value) == 'scope_name', 'wellformed:vscode:scope', vs.site(), 'the grammar declares the same scope name as the package', '')
 
 
-RULES = [c20_1, c20_2, c20_3, c20_4]
+def c20_case(ctx):
+    ctx.rule('C20.5', 'mnemonics, macro names and registers are matched without regard to letter case, as the assembler matches them', 6)
+    import json
+    import os
+    base = os.path.join(ctx.repo.src, 'bespokeasm', 'configgen')
+    tokens = ('##INSTRUCTIONS##', '##MACROS##', '##REGISTERS##', '##OPERATIONS##')
+    n = 0
+
+    def strings(x, path=''):
+        if isinstance(x, dict):
+            for k, v in x.items():
+                yield from strings(v, f'{path}/{k}')
+        elif isinstance(x, list):
+            for i, v in enumerate(x):
+                yield from strings(v, f'{path}[{i}]')
+        elif isinstance(x, str):
+            yield path, x
+    for rel, loader in (('vscode/resources/tmGrammar.json', 'json'), ('sublime/resources/sublime-syntax.yaml', 'yaml')):
+        pth = os.path.join(base, rel)
+        if not os.path.exists(pth):
+            ctx.err(f'case:{rel}', '-', 'template exists', pth)
+            continue
+        text = open(pth).read()
+        if loader == 'json':
+            data = json.loads(text)
+        else:
+            import yaml
+            data = yaml.safe_load(text)
+        for where, val in strings(data):
+            hit = [t for t in tokens if t in val]
+            if not hit:
+                continue
+            n += 1
+            ctx.check(val.lstrip().startswith('(?i)'), f'case:{rel.split("/")[0]}:{where.split("/")[-2] if "/" in where else where}:{hit[0]}:{n}',
+                      f'src/bespokeasm/configgen/{rel}:1', f'the pattern holding {", ".join(hit)} is case-insensitive (`(?i)`), like the assembler\'s own matching',
+                      f'{val[:70]} is case-sensitive: `LDA` / `Push2` are not classified although they assemble')
+    if n < 6:
+        ctx.err('case:inventory', '-', 'at least 6 vocabulary patterns in the two templates', f'{n}')
+
+
+def c20_state(ctx):
+    """A generator computes each expansion from the model every time: nothing is cached between placeholders, nothing in the model is changed."""
+    from rules.shared import state_discipline
+    state_discipline(ctx, ('bespokeasm.configgen',))
+    ctx.rule('C20.6', 'collections obtained from the model are never modified', 1)
+    n = 0
+    for q, f in sorted(ctx.repo.functions.items()):
+        if not f.module.name.startswith('bespokeasm.configgen'):
+            continue
+        aliases = set()
+        for a in ast.walk(f.node):
+            if isinstance(a, ast.Assign) and len(a.targets) == 1 and isinstance(a.targets[0], ast.Name) and unparse(a.value).startswith(('self.model.', 'self._model.')) \
+                    and not isinstance(a.value, ast.Call):
+                aliases.add(a.targets[0].id)
+        for c in ast.walk(f.node):
+            tgt = None
+            if isinstance(c, ast.Call) and isinstance(c.func, ast.Attribute) and c.func.attr in ('add', 'update', 'remove', 'discard', 'pop', 'clear', 'append', 'extend', 'sort', 'insert',
+                                                                                                'difference_update', 'intersection_update', 'symmetric_difference_update'):
+                tgt = c.func.value
+            elif isinstance(c, ast.AugAssign):
+                tgt = c.target
+            if tgt is None:
+                continue
+            t = unparse(tgt)
+            if t in aliases or t.startswith(('self.model.', 'self._model.')):
+                n += 1
+                ctx.refute(f'model:mutated:{ctx.short(f)}:{t}', f.site(c), 'sets and lists obtained from the model are read only',
+                           f'{unparse(c)[:80]} changes {t}, which is the model\'s own collection: every later placeholder sees the changed vocabulary')
+    ctx.ok('model:scanned', '-', 'generator functions were scanned for changes to model collections', f'{n} found')
+
+
+RULES = [c20_1, c20_2, c20_3, c20_4, c20_case, c20_state]
 
 _C = 'configgen/__init__.py'
 _V = 'configgen/vscode/__init__.py'
 _S = 'configgen/sublime/__init__.py'
 MUTANTS = [
+    V('c20-macros-case-sensitive', 'configgen/vscode/resources/tmGrammar.json', '"begin": "(?i)(##MACROS##)",', '"begin": "(##MACROS##)",', 'C20.5'),
+    V('c20-model-set-updated-via-alias', 'configgen/vscode/__init__.py', "        grammar_json['scopeName'] = scope_name\n", "        grammar_json['scopeName'] = scope_name\n        every = self.model.instruction_mnemonics\n        every.update(self.model.macro_mnemonics)\n", 'C20.6'),
     V('c20-zip-append', _S, "        archive_file = ZipFile(archive_fp, 'w')", "        archive_file = ZipFile(archive_fp, 'a')", 'C20.4'),
     V('c20-discarded-replace', _V, "        color_theme_xml = color_theme_xml.replace('##LANGUAGE_ID##', self.language_id)", "        color_theme_xml.replace('##LANGUAGE_ID##', self.language_id)", 'C20.1'),
     V('c20-no-escape', _C, "join([re.escape(r) for r in regex_list])", "join(regex_list)", 'C20.2'),
